@@ -227,6 +227,8 @@ def rule_c(ck, R):
         ck.verdict(bad is None, 'C03.c', 'find_reg', R.where('find_reg'),
                    'selects the first register not wholly below addr (skips only registers ending at or below addr)' if bad is None else bad)
     # (2) register_foreach_in
+    if R.u.fn('find_reg') is None or R.u.fn('find_area') is None:
+        return          # reported above as vanished anchors; what follows reads register_foreach_in in terms of their calls
     eng2 = sym.Engine(R.u, sizeof=R.so, inline=set())
     # find_area is only a hint for where the register search starts - but a wrong hint that lies *behind* the area of
     # addr makes the search skip registers: a valid result must be an area that contains addr
